@@ -144,6 +144,7 @@ def extra(ctx, obl, cases, obs):
                 f.write("  let tup := eval vm_compute in (nth %d (nth %d inp_%d []) (0,0,0,0,(0,0,0,0))%%Z) in tn93_check tup %s %d.\n"
                         % (j, i, cidx, v, k))
             f.write("  exact I.\nQed.\n")
+    okm, outm = cm.coq_make(["theories/TN93Spec.vo"], ctx.log)
     rc, out = cm.coqc_file(path, timeout=3000)
     ok = set(int(x) for x in re.findall(r"TN93OK (\d+)", out))
     bad = re.findall(r"TN93BAD (\d+)(.*)", out)
